@@ -52,11 +52,9 @@ def classify(scn, line):
 
 def gen(run, mn, mx, depth):
     cfg = "Gen_IdPool_%d_%d_%d.cfg" % (mn, mx, depth)
-    with open(os.path.join(run.spec, cfg), "w") as f:
-        f.write("CONSTANTS Min = %d Max = %d Depth = %d\nSPECIFICATION Spec\nCONSTRAINT Dump\nCHECK_DEADLOCK FALSE\n"
-                % (mn, mx, depth))
-    r = run.tlc("IdPoolGen", cfg, workers=1, name="gen:" + cfg)
-    return [json.loads(json.loads('"%s"' % s[1:-1])) if False else json.loads(eval(s)) for s in r.printed("BEHAV")]
+    text = "\n".join(["CONSTANTS Min = %d Max = %d Depth = %d" % (mn, mx, depth),
+                      "SPECIFICATION Spec", "CONSTRAINT Dump", "CHECK_DEADLOCK FALSE", ""])
+    return vlib.gen_behaviours(run, "IdPoolGen", cfg, text)
 
 
 def check(run, only=None):
@@ -78,9 +76,9 @@ def check(run, only=None):
     big = 2 if not thorough else 10
     p = run.drive(drv, ["-scenarios", spath, "-out", tpath, "-random", str(nrand), "-len", "40",
                         "-big", str(big), "-biglen", "20000" if not thorough else "100000"], timeout=1200)
-    events = vlib.load_events(tpath)
-    run.log("recorded %d events" % len(events))
-    validated, rejected, tstates = vlib.validate_scenarios(run, "IdPoolTrace", "IdPoolTrace.cfg", events,
+    nev, nscn = vlib.count_lines(tpath, '"op":"new"')
+    run.log("recorded %d events" % nev)
+    validated, rejected, tstates = vlib.validate_scenarios(run, "IdPoolTrace", "IdPoolTrace.cfg", tpath,
                                                            timeout=3000)
     v = vlib.Verdict(run)
     for rj in rejected:
@@ -94,7 +92,6 @@ def check(run, only=None):
                "calls": [{"op": e["op"], "i": e.get("i", 0)} for e in scn[1:line]],
                "trace": scn[:line], "rejected_line": line})
     rc = v.finish()
-    nscn = len(vlib.split_scenarios(events))
     vlib.write_evidence(run, {
         "traces_validated_against_impl": validated,
         "evaluations": nscn,
@@ -102,11 +99,11 @@ def check(run, only=None):
         "rule": "TLC-generated: every call sequence of the stated depth over get/put(i) for ranges %s (min,max,depth); "
                 "plus %d seeded random 40-call histories on ranges of 1-6 ids and %d long histories on 0/1..65535; "
                 "distinct = distinct call sequences; each is non-trivial (>= 5 calls)" % (plans, nrand, big),
-        "events_validated": len(events),
+        "events_validated": nev,
         "trace_spec_states": tstates,
         "rejections": len(rejected),
         "exhaustive": True,
-        "samples": [scns[0], scns[len(scns) // 2], {"trace_excerpt": events[:8]}],
+        "samples": [scns[0], scns[len(scns) // 2], {"trace_excerpt": vlib.head_events(tpath, 8)}],
     }, ["the allocator is reached through the verif-tagged constructor VerifNewMIDPool (same code as the writer's pool)",
         "any free identifier is an acceptable answer of Get (allocation policy is not part of C06)"],
         violations=v.n_new)
